@@ -6,7 +6,7 @@
      autode/mol_graphs.py:228-256   remove_bonds_invalid_valancies: the valence cap
      autode/atoms.py:318-338        Atom.maximal_valance
      autode/atoms.py:724-760        Atoms.eqm_bond_distance
-     autode/atoms.py:827-857        Atoms.are_linear
+     autode/atoms.py:830-866        Atoms.are_linear (every atom, every pair of the others)
      autode/atoms.py:859-900        Atoms.are_planar
      autode/atoms.py:993-1122       AtomCollection.angle / dihedral
    Element tables, the bond test `within` and the out-of-plane test `planar_off` are GENERATED from
@@ -79,6 +79,21 @@ Fixpoint insert_by (key : nat -> Qc) (x : nat) (l : list nat) : list nat :=
   end.
 Definition sort_by (key : nat -> Qc) (l : list nat) : list nat := fold_right (insert_by key) [] l.
 
+(* sorting of atom indexes by index (for the tie-break of the valence cap) *)
+Fixpoint insert_idx (x : nat) (l : list nat) : list nat :=
+  match l with
+  | [] => [x]
+  | y :: r => if Nat.leb x y then x :: l else y :: insert_idx x r
+  end.
+Definition sort_idx (l : list nat) : list nat := fold_right insert_idx [] l.
+(* mol_graphs.py:249 (as repaired by /repo 3e32450): sorted(neighbours, key = (round(distance, 6), k)):
+   by distance, equally long bonds by atom index.  The model orders by the EXACT squared distance and
+   breaks exact ties by index (stable sort of the index-sorted list); the rounding to 1e-6 A is not
+   modelled: two neighbours of an over-coordinated atom whose distances differ by less than the
+   rounding resolution (0 < |d - d'| <= 1.1e-6 A), or a distance within 1e-9 of a rounding boundary,
+   form a margin class that the correspondence skips and counts. *)
+Definition cap_order (key : nat -> Qc) (nb : list nat) : list nat := sort_by key (sort_idx nb).
+
 Section Algo.
   Variable n : nat.                     (* species.n_atoms *)
   Variable d : nat -> nat -> Qc.        (* dist_mat[i, j] (squared) *)
@@ -99,7 +114,7 @@ Section Algo.
   Definition prune_node (g : graph) (i : nat) : graph :=
     let nb := neighbours g i in
     if Nat.leb (length nb) (mv i) then g
-    else fold_left (fun g j => remove_edge g i j) (skipn (mv i) (sort_by (d i) nb)) g.
+    else fold_left (fun g j => remove_edge g i j) (skipn (mv i) (cap_order (d i) nb)) g.
   (* graph.nodes is 0..n-1 in order (nodes are added by enumerate, mol_graphs.py:180) *)
   Definition prune_upto (m : nat) (g : graph) : graph := fold_left prune_node (seq 0 m) g.
   Definition prune (g : graph) : graph := prune_upto n g.
@@ -144,19 +159,28 @@ Definition make_graph_unpruned_model (tol : Qc) (el : list nat) (ps : list V3) :
 Definition relabel (s : nat -> nat) (g : graph) : graph := map (fun e => (s (fst e), s (snd e))) g.
 
 (* ------------------------------------------------------------------ shape predicates *)
-(* Atoms.are_linear (atoms.py:827).  With c = vec.vec0/|vec| (|vec0| = 1) the code tests
-   | |c| - 1 | > tol with tol = |1 - cos(angle_tol)|.  Since |c| <= 1 this is |c| < ct := 1 - tol,
-   i.e. (for ct >= 0)  (vec.v01)^2 < ct^2 |vec|^2 |v01|^2  with v01 the UNnormalised 0->1 vector.
-   A zero vector gives nan in the code and every comparison with nan is False: 0 < 0 here. *)
-Definition lin_off (ct : Qc) (p0 p1 p : V3) : bool :=
-  let v := vsub3 p p0 in let w := vsub3 p1 p0 in
+(* Atoms.are_linear (atoms.py:830, as repaired by /repo commit 5a4ab9d).  For EVERY atom i the unit
+   vectors from i to every other atom (np.delete(coords, i) - coords[i], normalised) are compared
+   pairwise (vecs @ vecs.T, diagonal included): with c = cos of the angle at i between atoms a and b
+   the code tests | |c| - 1 | > tol, tol = |1 - cos(angle_tol)|.  Since |c| <= 1 this is
+   |c| < ct := 1 - tol, i.e. (for ct >= 0)  (v.w)^2 < ct^2 |v|^2 |w|^2  with v, w UNnormalised.
+   A zero vector (coincident atoms) gives nan in the code and every comparison with nan is False:
+   0 < 0 here. *)
+Definition lin_off (ct : Qc) (p a b : V3) : bool :=
+  let v := vsub3 a p in let w := vsub3 b p in
   Qcleb 0 ct && Qcltb (dot3 v w * dot3 v w) (ct * ct * (norm2 v * norm2 w)).
+Definition others {A} (i : nat) (l : list A) : list A := firstn i l ++ skipn (S i) l.   (* np.delete(l, i) *)
 Definition are_linear_model (ct : Qc) (ps : list V3) : bool :=
   match ps with
   | [] | [_] => false
   | [_; _] => true
-  | p0 :: p1 :: rest => forallb (fun p => negb (lin_off ct p0 p1 p)) rest
+  | _ => forallb (fun i => let p := nth i ps vzero in let o := others i ps in
+                           forallb (fun a => forallb (fun b => negb (lin_off ct p a b)) o) o)
+                 (seq 0 (length ps))
   end.
+(* the same test over ALL ordered triples of the list (the extra triples have a zero vector) *)
+Definition are_linear_sym (ct : Qc) (ps : list V3) : bool :=
+  forallb (fun p => forallb (fun a => forallb (fun b => negb (lin_off ct p a b)) ps) ps) ps.
 
 (* Atoms.are_planar (atoms.py:859).  The normal is planar_normal p0 p1 pj (GENERATED:
    np.cross(arr[1]-x0, arr[j]-x0)) for the first j in range(2, n) with |normal| > eps (the last one
